@@ -1,10 +1,15 @@
 #!/bin/sh
-# Offline setup: nothing to install. Syntax-check every spec and byte-compile the harness.
+# Offline setup: nothing to install. Syntax-check the specs of every claimed engine and
+# byte-compile the harness.
 set -e
 cd "$(dirname "$0")"
 mkdir -p .work evidence replays
 /venv/bin/python -m compileall -q harness >/dev/null
-for f in specs/*/*.tla; do
-  ( cd "$(dirname "$f")" && java -cp /opt/veriftools/tla/tla2tools.jar:/opt/veriftools/tla/CommunityModules-deps.jar tla2sany.SANY "$(basename "$f")" >/dev/null 2>&1 ) || { echo "SANY failed: $f"; exit 1; }
+CP=/opt/veriftools/tla/tla2tools.jar:/opt/veriftools/tla/CommunityModules-deps.jar
+for d in $(/venv/bin/python -c "import json;print(' '.join(sorted({e['path'] for e in json.load(open('MANIFEST.json'))['engines']})))"); do
+  for f in "$d"/*.tla; do
+    [ -f "$f" ] || continue
+    ( cd "$d" && java -cp "$CP" tla2sany.SANY "$(basename "$f")" >/dev/null 2>&1 ) || { echo "SANY failed: $f"; exit 1; }
+  done
 done
 echo setup ok
